@@ -409,3 +409,47 @@ def gen_pool_histories(rng, tier):
     for _ in range(300 if tier == "quick" else 3000):
         hist.append([rng.choice(POOL_ALPHABET) for _ in range(rng.randint(3, 8))])
     return hist
+
+
+
+def steady_state_relations():
+    """computeSteadyStateNucleation on a scripted binary backend, with both binary impingement functions, scalar and array compositions,
+    every site type: impingement rate / incubation time / rate finite and non-negative, array = point by point, rate non-decreasing
+    with the driving force.  Events for Relations.tla."""
+    import math
+    from .fakes import FakeBinaryTherm
+    from kawin.precipitation import NucleationRate as nr
+    from kawin.precipitation.PrecipitationParameters import PrecipitateParameters, MatrixParameters
+    ev = [{"e": "init"}]
+    xs = np.array([0.004, 0.006, 0.01, 0.02, 0.03])            # xe = 0.005: the first is undersaturated
+    try:
+        for site in SITES:
+            th = FakeBinaryTherm(D=1e-18)
+            p = PrecipitateParameters("beta"); p.gamma = 0.05; p.volume.setVolume(1e-5, "VM", 4)
+            p.nucleation.setNucleationType(site); p.nucleation.gbEnergy = 0.03
+            m = MatrixParameters(["B"]); m.volume.setVolume(1e-5, "VM", 4); m.initComposition = 0.02
+            for bname, bf in (("betaBinary1", nr.betaBinary1), ("betaBinary2", nr.betaBinary2), ("default", None)):
+                tag = "%s %s" % (site, bname)
+                try:
+                    arr = nr.computeSteadyStateNucleation(th, xs, 1000.0, p, m, betaFunc=bf)
+                    pts = [nr.computeSteadyStateNucleation(th, float(x), 1000.0, p, m, betaFunc=bf) for x in xs]
+                    one = nr.computeSteadyStateNucleation(th, np.array([xs[3]]), 1000.0, p, m, betaFunc=bf)
+                except Exception as ex:  # noqa
+                    ev.append({"e": "rel", "group": "C14:steady-state-nucleation-evaluates(scalar and array arguments)", "name": "%s: %s" % (tag, type(ex).__name__), "c": "gt", "want": "eq"})
+                    continue
+                ev.append({"e": "rel", "group": "C14:steady-state-nucleation-evaluates(scalar and array arguments)", "name": tag, "c": "eq", "want": "eq"})
+                for f in ("beta", "tau", "nucleation_rate", "Gcrit", "Z"):
+                    a = np.atleast_1d(np.asarray(getattr(arr, f), dtype=float))
+                    okf = bool(np.all(np.isfinite(a[1:])) and np.all(a >= 0))
+                    ev.append({"e": "rel", "group": "C14:finite-and-nonnegative(steady state, %s)" % f, "name": tag, "c": "eq" if okf else "lt", "want": "eq"})
+                    pv = np.array([float(np.atleast_1d(getattr(q, f))[0]) for q in pts])
+                    same = bool(a.shape == pv.shape and np.allclose(a, pv, rtol=1e-9, atol=0, equal_nan=True))
+                    ev.append({"e": "rel", "group": "C14:array=point-by-point(steady state, %s)" % f, "name": tag, "c": "eq" if same else "gt", "want": "eq"})
+                ev.append(rel("C14:array=point-by-point(steady state, one-element array)", tag, float(np.atleast_1d(one.nucleation_rate)[0]), float(np.atleast_1d(pts[3].nucleation_rate)[0]), "eq"))
+                r = np.atleast_1d(np.asarray(arr.nucleation_rate, dtype=float))
+                ev.append({"e": "rel", "group": "C14:rate=0-when-dG<=0(steady state)", "name": tag, "c": "eq" if r[0] == 0 else "gt", "want": "eq"})
+                for i in range(1, len(r) - 1):
+                    ev.append(rel("C14:steady-state-rate-non-decreasing-in-dG", "%s x=%g" % (tag, xs[i + 1]), r[i + 1], r[i], "ge"))
+    except Exception as ex:  # noqa
+        ev.append({"e": "exception", "msg": "%s: %s" % (type(ex).__name__, str(ex)[:200])})
+    return ev
